@@ -9,19 +9,19 @@ Import ListNotations.
 Notation InvW_c := (InvW project config sched fname tree tree files fp).
 Notation up_to_date_c := (up_to_date project config sched fname tree tree files).
 
-(* Faithful model (no presence test, the fingerprint of generation_cache.rs). For every history of source
+(* Faithful model (presence test in the callers, the fingerprint of generation_cache.rs). For every history of source
    edits, configuration edits, deletions of output files, deletions of the record and forced or non-forced
    runs under arbitrary discovery orders, starting from any state satisfying the invariant (the empty
    directory does, and every reachable state does): a non-forced run that reports success or up to date
    leaves every file of a forced generation in place - unless the state before that run lies in a
-   recorded class (kf_C08 lists the classes: 6 events differ, 8 line numbers differ under visualize_deps, 9 a vouched file is lost). *)
+   recorded class (kf_C08 = [8]: the command line numbers differ under visualize_deps while the fingerprints agree). Model of the code with the presence test in both callers (check_presence = true). *)
 Theorem C08_cache_sound : forall (ops : list cop) (sg0 : cstate * option cgen) (w : sched),
   InvW_c sg0 ->
-  let sg := fold_left (stepG_c false) ops sg0 in
+  let sg := fold_left (stepG_c true) ops sg0 in
   kf_C08 w sg = [] ->
-  forall r st', run_c false w false None (fst sg) = (r, st') -> r = Success \/ r = UpToDate -> up_to_date_c w st'.
+  forall r st', run_c true w false None (fst sg) = (r, st') -> r = Success \/ r = UpToDate -> up_to_date_c w st'.
 Proof. intros ops sg0 w HI sg Hk.
-  apply (cache_sound_abstract project config sched fname tree tree fname_eqb tree_eqb files fp has_commands g_force false
+  apply (cache_sound_abstract project config sched fname tree tree fname_eqb tree_eqb files fp has_commands g_force true
            fname_eqb_spec files_nodup ops sg0 w HI).
   apply kf_nil_sound_hit. exact Hk. Qed.
 
@@ -34,12 +34,16 @@ Theorem C08_classes_complete : forall w p c w' p' c',
   fp w p c = fp w' p' c' -> unhashed w p c = unhashed w' p' c' -> files w p c = files w' p' c'.
 Proof. exact fp_sound_modulo_unhashed. Qed.
 
-(* each remaining class is a genuine failure of the faithful model: a computed history ends in a cache hit
+(* the remaining class is a genuine failure of the faithful model: a computed history ends in a cache hit
    (result UpToDate) over files that are not those of a forced generation *)
-Theorem C08_refuted :
-  (exists ops, refutes [6] p0 c0 ops) /\ (exists ops, refutes [8] p0 (ex_cfg "none" true) ops) /\
-  (exists ops, refutes [9] p0 c0 ops).
-Proof. repeat split; eexists; [exact refuted_6|exact refuted_8|exact refuted_9]. Qed.
+Theorem C08_refuted : exists ops, refutes [8] p0 (ex_cfg "none" true) ops.
+Proof. eexists. exact refuted_8. Qed.
+
+(* former witnesses of C08-6 (event renamed) and C08-9 (types.ts deleted): detected now *)
+Theorem C08_repaired_events_and_lost_file :
+  detects p0 c0 [Run _ _ _ _ w1 false; SetSrc _ _ _ _ (ex_proj (ex_struct None None v1) (ex_cmd None None) (L "pong"%string))] /\
+  detects p0 c0 [Run _ _ _ _ w1 false; Delete _ _ _ _ Types].
+Proof. split; [exact fixed_6|exact fixed_9]. Qed.
 
 (* the former witnesses of C08-1..5 and C08-7 (serde rename of a field, struct rename_all, validator attributes
    in zod mode, command rename_all, parameter rename, visualize_deps switched on): the edit is detected now -
@@ -54,7 +58,7 @@ Proof. split; [eexists; exact fixed_1|]. split; [exact fixed_7|]. split; [exact 
   split; [exact fixed_4|exact fixed_5]. Qed.
 
 Theorem C08_refuted_means_unsound : forall cls p c ops, refutes cls p c ops ->
-  exists r st', run_c false w1 false None (fst (final p c ops)) = (r, st') /\ r = UpToDate /\ ~ up_to_date_c w1 st'.
+  exists r st', run_c true w1 false None (fst (final p c ops)) = (r, st') /\ r = UpToDate /\ ~ up_to_date_c w1 st'.
 Proof. exact refutes_not_sound. Qed.
 
 (* the repaired design (fingerprint that determines the output + presence test before answering
@@ -77,21 +81,22 @@ Proof. exact RunSpike.cache_sound. Qed.
 (* non-vacuity *)
 Example C08_ex_detected :
   let sg := final p0 c0 [Run _ _ _ _ w1 false; SetSrc _ _ _ _ p_field_type; Delete _ _ _ _ Events; Run _ _ _ _ w1 false; SetCfg _ _ _ _ cz] in
-  kf_C08 w1 sg = [] /\ fst (run_c false w1 false None (fst sg)) = Success.
+  kf_C08 w1 sg = [] /\ fst (run_c true w1 false None (fst sg)) = Success.
 Proof. exact ex_detected. Qed.
 Example C08_ex_hit :
   let sg := final p0 c0 [Run _ _ _ _ w1 false; SetSrc _ _ _ _ p_field_type; Run _ _ _ _ w1 false] in
-  kf_C08 w1 sg = [] /\ fst (run_c false w1 false None (fst sg)) = UpToDate.
+  kf_C08 w1 sg = [] /\ fst (run_c true w1 false None (fst sg)) = UpToDate.
 Proof. exact ex_hit. Qed.
 Example C08_ex_validator_mode_none :
   let sg := final p0 c0 [Run _ _ _ _ w1 false; SetSrc _ _ _ _ (ex_proj (ex_struct None None v2) (ex_cmd None None) (L "ping"%string))] in
-  kf_C08 w1 sg = [] /\ all_current w1 (snd (run_c false w1 false None (fst sg))) = true.
+  kf_C08 w1 sg = [] /\ all_current w1 (snd (run_c true w1 false None (fst sg))) = true.
 Proof. exact validator_none_harmless. Qed.
 
 Print Assumptions C08_cache_sound.
 Print Assumptions C08_inv_initial.
 Print Assumptions C08_classes_complete.
 Print Assumptions C08_refuted.
+Print Assumptions C08_repaired_events_and_lost_file.
 Print Assumptions C08_repaired_witnesses_detected.
 Print Assumptions C08_refuted_means_unsound.
 Print Assumptions C08_repaired_design_sound.
